@@ -35,7 +35,8 @@ CLAIM = dict(
     "(over R for all modes; also on the exact Q model of DarsiaModel.Transport). Proved by a checker "
     "(exact arithmetic in Q(sqrt d), symmetric pairing, permutation of the product grid) shown sound once over the reals "
     "and evaluated by the kernel per table.",
-    note="transport_density itself (face_to_cell, norms, the loop over the rule; weighted=False, the default weighted=True without and with a "
+    note="Rule.toUnitCell (the map of gauss_reference_cell) is hand-written in the model and tied numerically (4e-16) on every accepted pair; "
+    "max_alias, l1_obligation, rejected_pairs_raise, table/corner_obligations are tie checks on generated tables; transport_density itself (face_to_cell, norms, the loop over the rule; weighted=False, the default weighted=True without and with a "
     "scalar weight image) is tied numerically: real solver objects vs the sum over the model's rule, 1e-13; if the source leaves the "
     "accepted AST subset the committed table is used and only validated numerically (recorded in the evidence); numpy evaluates the literal expressions in floating point (validated against the symbolic values to 1e-15 on every "
     "run); N-D exactness: for d = 2, 3 every polynomial (term list) of per-variable degree <= 2n-1 against the iterated interval "
